@@ -88,6 +88,9 @@ func TestExpiryHistories(t *testing.T) {
 		pending := gostatsd.NewMetricMap(false)
 		flushes := 0
 		nontrivial := false
+		const crowdN = 10050
+		crowdCase := rapid.IntRange(0, 39).Draw(t, "history-with-a-crowd") == 0
+		crowdLive, crowdFresh, crowdLast, crowdSeen, crowdValue := false, false, int64(0), 0, int64(0)
 
 		deliver := func() {
 			if !pending.IsEmpty() {
@@ -165,6 +168,21 @@ func TestExpiryHistories(t *testing.T) {
 				agg.ReceiveMap(mm)
 				history = append(history, fmt.Sprintf("@%v burst of %d values on %s", now.Sub(time.Unix(1_700_000_000, 0)), n, s))
 			},
+			"crowd": func(t *rapid.T) {
+				// rarely: more than ten thousand counter series report at the same moment (a fleet behind one forwarder) and then
+				// fall silent together; they all come to their expiry in one and the same Reset
+				if !crowdCase || crowdLive || rapid.IntRange(0, 5).Draw(t, "crowd-now") != 0 {
+					t.Skip("no crowd now")
+				}
+				deliver()
+				mm := gostatsd.NewMetricMap(false)
+				for i := 0; i < crowdN; i++ {
+					mm.Counters[fmt.Sprintf("crowd.%d", i)] = map[string]gostatsd.Counter{"": {Value: 1, Timestamp: gostatsd.Nanotime(now.UnixNano())}}
+				}
+				agg.ReceiveMap(mm)
+				crowdLive, crowdFresh, crowdLast = true, true, now.UnixNano()
+				history = append(history, fmt.Sprintf("@%v crowd of %d counter series", now.Sub(time.Unix(1_700_000_000, 0)), crowdN))
+			},
 			"advance": func(t *rapid.T) {
 				deliver() // datapoints carry their receive time; deliver before time moves on
 				d := rapid.SampledFrom(steps).Draw(t, "dt")
@@ -184,7 +202,13 @@ func TestExpiryHistories(t *testing.T) {
 						}
 						got[s] = desc
 					}
+					crowdSeen, crowdValue = 0, 0
 					mm.Counters.Each(func(n, tk string, c gostatsd.Counter) {
+						if strings.HasPrefix(n, "crowd.") {
+							crowdSeen++
+							crowdValue += c.Value
+							return
+						}
 						note(sid{gostatsd.COUNTER, n, tk}, fmt.Sprintf("%d/%v", c.Value, c.PerSecond))
 					})
 					mm.Gauges.Each(func(n, tk string, g gostatsd.Gauge) { note(sid{gostatsd.GAUGE, n, tk}, fmt.Sprintf("%v", g.Value)) })
@@ -220,6 +244,23 @@ func TestExpiryHistories(t *testing.T) {
 				}
 				if dup != "" {
 					fail("C09:reported-twice", "series %s reported twice in one flush", dup)
+				}
+				// the crowd obeys the counters' interval like any other counter series, all of its members alike
+				if crowdLive {
+					wantValue := int64(0)
+					if crowdFresh {
+						wantValue = crowdN
+					}
+					if crowdSeen != crowdN || crowdValue != wantValue {
+						fail("C09:missing-before-expiry", "%d of the %d crowd counters reported (total %d, want %d) although their last data is %v old and the counters' expiry is %v", crowdSeen, crowdN, crowdValue, wantValue, time.Duration(now.UnixNano()-crowdLast), exp[gostatsd.COUNTER])
+					}
+					crowdFresh = false
+					if iv := exp[gostatsd.COUNTER]; iv != 0 && time.Duration(now.UnixNano()-crowdLast) > iv {
+						crowdLive = false
+						nontrivial = true
+					}
+				} else if crowdSeen != 0 {
+					fail("C09:reported-after-expiry", "%d of the %d crowd counters reported after they had expired and without new data", crowdSeen, crowdN)
 				}
 				for _, s := range series {
 					st := model[s]
